@@ -368,6 +368,9 @@ def gen_conc_segments(nseg, seed, nthreads=(2, 4), oplen=(3, 14), prefix='conc')
             nqx = rnd.choice([0, 0, 1])
             lines.append('pre watch 4 2 %d %d 0' % (nqx, rnd.choice([1, 2]) if nqx else 0))
         focused = cross and rnd.random() < 0.5      # short programs that start with the two racing operations
+        shared_obj = (T == 2 and not cross and rnd.random() < 0.7)      # object 3 belongs to nobody: requirements on it come from both threads
+        if shared_obj:
+            lines.append('pre obj 3')
         # an expectation placed (by the main thread) on thread u's own mock but owned by thread v: v releases / queries it
         # while u may be destroying the mock (destruction of a mock vs. release of one of its expectations, from two threads)
         xown = {}
@@ -462,10 +465,17 @@ def gen_conc_segments(nseg, seed, nthreads=(2, 4), oplen=(3, 14), prefix='conc')
                 elif kind == 'iscompleted':
                     lines.append('thr %d iscompleted %d' % (t, rnd.choice([1, 2])))
                 elif kind == 'watch':
-                    if mon_alive or not obj_alive:
+                    if mon_alive:
                         continue
                     nq = rnd.choice([0, 1, 1, 2])
                     q = rnd.sample([1, 2], nq) + [0, 0]
+                    if shared_obj and rnd.random() < 0.5:
+                        # a requirement on the SHARED object 3: several threads create / release requirements on one object
+                        # (it is destroyed by the main thread after the join, if at all)
+                        lines.append('thr %d watch %d 3 %d %d %d' % (t, k, nq, q[0], q[1])); mon_alive = True
+                        continue
+                    if not obj_alive:
+                        continue
                     lines.append('thr %d watch %d %d %d %d %d' % (t, k, k, nq, q[0], q[1])); mon_alive = True
                 elif kind == 'dobj':
                     if not obj_alive:
@@ -484,6 +494,8 @@ def gen_conc_segments(nseg, seed, nthreads=(2, 4), oplen=(3, 14), prefix='conc')
                         continue
                     lines.append('thr %d dmock %d' % (t, own_mock)); own_mock_alive = False
                 cnt += 1
+        if shared_obj and rnd.random() < 0.6:
+            lines.append('post dobj 3')
         for c in range(callers):
             for _ in range(rnd.randint(2, 8)):
                 if rnd.random() < 0.8:
